@@ -23,6 +23,8 @@ fn dfs(u: usize, g: &[Vec<Option<usize>>], st: &mut [u8]) -> bool {
 struct Graph {
     names: Vec<String>,
     use_prefix: bool,
+    /// a second, lower-priority prefix `q/` is configured too
+    two_prefixes: bool,
     ext: Vec<Option<String>>,
     /// (target, placement)
     inc: Vec<Vec<(String, u8)>>,
@@ -86,14 +88,34 @@ fn random_graph(rng: &mut Rng) -> Graph {
         _ => 1 + rng.below(6),
     };
     let use_prefix = rng.chance(1, 3);
-    let names: Vec<String> = (0..k).map(|i| if use_prefix && rng.chance(1, 3) { format!("p/n{i}") } else { format!("n{i}") }).collect();
+    let two_prefixes = use_prefix && rng.bool();
+    let mut names: Vec<String> = (0..k).map(|i| if use_prefix && rng.chance(1, 3) { format!("{}n{i}", if two_prefixes && rng.bool() { "q/" } else { "p/" }) } else { format!("n{i}") }).collect();
+    // with two prefixes, some templates are twins: the same short name under both prefixes (the first prefix wins)
+    if two_prefixes && k >= 2 {
+        for _ in 0..rng.below(3) {
+            let (i, j) = (rng.below(k), rng.below(k));
+            if i != j {
+                let short = names[i].trim_start_matches("p/").trim_start_matches("q/").to_string();
+                names[i] = format!("p/{short}");
+                names[j] = format!("q/{short}");
+            }
+        }
+        // twins of twins may collide: keep names unique
+        let mut seen = std::collections::BTreeSet::new();
+        for (i, n) in names.iter_mut().enumerate() {
+            if !seen.insert(n.clone()) {
+                *n = format!("n{i}x");
+                seen.insert(n.clone());
+            }
+        }
+    }
     let mut shape = String::from("random");
     let refname = |rng: &mut Rng, j: usize| -> String {
         if j >= names.len() {
             return "missing".to_string();
         }
         let nm = &names[j];
-        if use_prefix && nm.starts_with("p/") && rng.bool() {
+        if use_prefix && (nm.starts_with("p/") || nm.starts_with("q/")) && rng.bool() {
             nm[2..].to_string()
         } else {
             nm.clone()
@@ -159,7 +181,7 @@ fn random_graph(rng: &mut Rng) -> Graph {
         }
     }
     let supers = (0..k).map(|_| rng.bool()).collect();
-    Graph { names, use_prefix, ext, inc, supers, shape }
+    Graph { names, use_prefix, two_prefixes, ext, inc, supers, shape }
 }
 
 pub fn run(cx: &mut Cx) {
@@ -183,7 +205,7 @@ pub fn run(cx: &mut Cx) {
                     inc[i].push((format!("n{}", i + 1), 0u8));
                 }
             }
-            Graph { names, use_prefix: false, ext, inc, supers: vec![true; d + 1], shape: format!("{}-chain-depth{d}", if is_ext { "extends" } else { "include" }) }
+            Graph { names, use_prefix: false, two_prefixes: false, ext, inc, supers: vec![true; d + 1], shape: format!("{}-chain-depth{d}", if is_ext { "extends" } else { "include" }) }
         } else {
             random_graph(&mut rng)
         };
@@ -202,6 +224,12 @@ pub fn run(cx: &mut Cx) {
             }
             if g.use_prefix {
                 let p = format!("p/{nm}");
+                if let Some(i) = g.names.iter().position(|x| *x == p) {
+                    return Some(i);
+                }
+            }
+            if g.two_prefixes {
+                let p = format!("q/{nm}");
                 if let Some(i) = g.names.iter().position(|x| *x == p) {
                     return Some(i);
                 }
@@ -245,16 +273,16 @@ pub fn run(cx: &mut Cx) {
             let mut inc = g.inc.clone();
             ext[i] = None;
             inc[i] = vec![];
-            sources(&Graph { names: g.names.clone(), use_prefix: g.use_prefix, ext, inc, supers: g.supers.clone(), shape: String::new() })
+            sources(&Graph { names: g.names.clone(), use_prefix: g.use_prefix, two_prefixes: g.two_prefixes, ext, inc, supers: g.supers.clone(), shape: String::new() })
         });
-        let replay = json!({"shape": g.shape, "templates": srcs, "fallback_prefix": g.use_prefix,
+        let replay = json!({"shape": g.shape, "templates": srcs, "fallback_prefixes": if g.two_prefixes { 2 } else if g.use_prefix { 1 } else { 0 },
             "registration": match cut { Some(i) => format!("first every template with the edges of {} cut, then {} again with its real source", g.names[i], g.names[i]), None => "one batch".to_string() }});
         cx.eval();
         let built = guard(|| {
             let fresh = || {
                 let mut t = Tera::default();
                 if g.use_prefix {
-                    t.set_fallback_prefixes(vec!["p/"]).unwrap();
+                    t.set_fallback_prefixes(if g.two_prefixes { vec!["p/", "q/"] } else { vec!["p/"] }).unwrap();
                 }
                 t
             };
@@ -323,6 +351,11 @@ pub fn run(cx: &mut Cx) {
                     Ok(Err(e)) => {
                         cx.count("renders_err", 1);
                         cx.cell(format!("render-error|{}", clip(e.lines().next().unwrap_or(""), 60)));
+                        // without any extends edge nothing can recurse once the include relation is acyclic under the
+                        // documented resolution (exact name, then the prefixes in order): every template must render
+                        if g.ext.iter().all(|e| e.is_none()) {
+                            cx.violation("C11/accepted-include-graph-does-not-render", format!("{}: rendering {nm} failed although the include relation is acyclic under the documented name resolution: {}", g.shape, clip(&e, 200)), replay.clone());
+                        }
                         // an acyclic chain within the realistic depth must render
                         if g.shape.contains("-chain") && k <= 33 {
                             cx.violation("C11/acyclic-chain-does-not-render", format!("{}: rendering {nm} failed: {}", g.shape, clip(&e, 200)), replay.clone());
